@@ -39,11 +39,18 @@ def main():
         return 2
     rc1, out1 = sh([py, '_seed/demo.py'], cwd=wt, env=env, timeout=300)
     meta['ran'].append({'cmd': 'demo.py with change', 'rc': rc1, 'tail': out1[-300:]})
-    sh(f'git -C {wt} stash')
+    # (git stash is shared between worktrees of one repository: reverse-apply the patch instead)
+    pf = wt / '_seed' / '.eval.patch'
+    pf.write_text(diff)
+    r, o = sh(f'git -C {wt} apply -R {pf}')
+    if r != 0:
+        print('cannot reverse-apply the change:', o)
+        return 2
     try:
         rc0, out0 = sh([py, '_seed/demo.py'], cwd=wt, env=env, timeout=300)
     finally:
-        sh(f'git -C {wt} stash pop')
+        sh(f'git -C {wt} apply {pf}')
+        pf.unlink()
     meta['ran'].append({'cmd': 'demo.py without change', 'rc': rc0, 'tail': out0[-300:]})
     t = time.time()
     rcs, outs = sh([py, '-m', 'pytest', '-q', '-p', 'no:cacheprovider', '--timeout=900'], cwd=wt, env=env, timeout=1800)
